@@ -43,6 +43,7 @@ CL2 == <<P(0,0), P(6,0)>>
 CL3 == <<P(0,0), P(0,5), P(12,0)>>
 CL4 == <<P(2,2), P(2,2), P(5,6)>>
 CLines == {CL1, CL2, CL3, CL4}
+CL0 == <<P(4,1)>>                                   \* a line of ONE coordinate: no length, no weight - wherever it stands among the others
 Offsets == IF Rich THEN {P(0,0), P(1000,-2000), P(100000,100000), P(-99999, 7)} ELSE {P(0,0), P(1000,-2000), P(100000,100000)}
 Dir(vs, d) == IF d = 0 THEN vs ELSE RevS(vs)
 MkRing(vs, d, k) == Closed(RotBy(Dir(vs, d), k))
@@ -63,7 +64,9 @@ ZeroCases ==
              <<<<Z2>>, <<Shift(Closed(S3), P(20, 0))>>>>, <<<<Shift(Closed(RevS(S1)), P(20, 0))>>, <<Z1>>>>}, o \in Offsets}
 LineCases ==
   {[kind |-> "lines", lines |-> ls, off |-> o] :
-     ls \in {[i \in DOMAIN s |-> IF d = 0 THEN s[i] ELSE RevS(s[i])] : s \in UNION {[1..k -> CLines] : k \in 1..2}, d \in {0, 1}},
+     ls \in {[i \in DOMAIN s |-> IF d = 0 THEN s[i] ELSE RevS(s[i])] : s \in {t \in UNION {[1..k -> CLines \cup {CL0}] : k \in 1..3} :
+                                                                            (\E i \in DOMAIN t : t[i] # CL0) /\ (Len(t) = 3 => \E i \in DOMAIN t : t[i] = CL0)},
+                                                                     d \in {0, 1}},
      o \in Offsets}
 Grid3x3 == {P(x, y) : x \in 0..2, y \in 0..2}
 \* gaps[j] = 1: the MultiPoint holds an EMPTY member before point j (after the last point for j = k + 1). EMPTY members carry
